@@ -16,7 +16,7 @@ RunAll(e) ==
   LET cfg == e.cfg
       un == Unreach(cfg, e.lints)
       fin(v, c) == Run(cfg, un, MInit(v, c, Fuel))
-  IN { <<p[1], p[2], fin(p[1], p[2])>> : p \in {<<0, 0>>, <<1, 1>>, <<2, 0>>, <<0, 1>>} }
+  IN { <<p[1], p[2], fin(p[1], p[2])>> : p \in {<<0, 0>>, <<1, 1>>, <<2, 0>>, <<0, 1>>, <<3, 0>>} }
 
 Runs(e) == IF e.ev = "obs" /\ e.cfgok THEN RunAll(e) ELSE {}
 Viol(rs)  == UNION { SeqSet(t[3].viol) : t \in rs }
